@@ -426,4 +426,200 @@ theorem WF.findCarets_climb {t : ObjectTree} (w : WF t) :
       simp only [hp', if_false, hp, Option.bind]
       exact ih _ ((w.links hl).1.resolve_left hp)
 
+/-! ### pools are determined by their slots -/
+
+theorem slot_setAt' (t : ObjectTree) (i : Nat) (f : Obj → Obj) (j : Nat) :
+    slot (setAt t i f) j = if i = j ∧ j < t.pool.size then f (slot t j) else slot t j := by
+  simp only [slot, setAt, Array.getElem?_modify]
+  by_cases hij : i = j
+  · subst hij
+    by_cases h : i < t.pool.size
+    · simp [h]
+    · simp [h]
+  · simp [hij]
+
+theorem ext_slot {t1 t2 : ObjectTree} (hs : t1.pool.size = t2.pool.size)
+    (hf : t1.freeListHeadIndex = t2.freeListHeadIndex) (h : ∀ j, slot t1 j = slot t2 j) : t1 = t2 := by
+  cases t1 with | mk p1 f1 =>
+  cases t2 with | mk p2 f2 =>
+  simp only at hs hf
+  subst hf
+  congr 1
+  apply Array.ext hs
+  intro j h1 h2
+  have := h j
+  simpa [slot, h1, h2] using this
+
+theorem setAt_id' (t : ObjectTree) (i : Nat) : setAt t i (fun o => o) = t :=
+  ext_slot (by simp) rfl (fun j => by simp [slot_setAt'])
+
+theorem setAt_oob (t : ObjectTree) (i : Nat) (f : Obj → Obj) (h : ¬ i < t.pool.size) : setAt t i f = t :=
+  ext_slot (by simp) rfl (fun j => by
+    rw [slot_setAt']
+    split
+    · rename_i c; omega
+    · rfl)
+
+section acc
+variable (t : ObjectTree) (i : Nat) (f : Obj → Obj) (x : Nat)
+theorem P_setAt' : P (setAt t i f) x = if i = x ∧ x < t.pool.size then (f (slot t x)).parentIndex else P t x := by
+  simp only [P, slot_setAt']; split <;> rfl
+theorem Pv_setAt' : Pv (setAt t i f) x = if i = x ∧ x < t.pool.size then (f (slot t x)).prevSiblingIndex else Pv t x := by
+  simp only [Pv, slot_setAt']; split <;> rfl
+theorem Nx_setAt' : Nx (setAt t i f) x = if i = x ∧ x < t.pool.size then (f (slot t x)).nextSiblingIndex else Nx t x := by
+  simp only [Nx, slot_setAt']; split <;> rfl
+theorem Fi_setAt' : Fi (setAt t i f) x = if i = x ∧ x < t.pool.size then (f (slot t x)).firstArgIndex else Fi t x := by
+  simp only [Fi, slot_setAt']; split <;> rfl
+theorem La_setAt' : La (setAt t i f) x = if i = x ∧ x < t.pool.size then (f (slot t x)).lastArgIndex else La t x := by
+  simp only [La, slot_setAt']; split <;> rfl
+theorem index_setAt' : (slot (setAt t i f) x).index = if i = x ∧ x < t.pool.size then (f (slot t x)).index else (slot t x).index := by
+  simp only [slot_setAt']; split <;> rfl
+theorem opcode_setAt' : (slot (setAt t i f) x).opcode = if i = x ∧ x < t.pool.size then (f (slot t x)).opcode else (slot t x).opcode := by
+  simp only [slot_setAt']; split <;> rfl
+theorem name_setAt' : (slot (setAt t i f) x).name = if i = x ∧ x < t.pool.size then (f (slot t x)).name else (slot t x).name := by
+  simp only [slot_setAt']; split <;> rfl
+end acc
+
+/-- discharges "this update does not touch that field" side conditions -/
+macro "keep_tac" : tactic => `(tactic| (intro o; simp only [apply_ite Obj.nextSiblingIndex,
+  apply_ite Obj.prevSiblingIndex, apply_ite Obj.parentIndex, apply_ite Obj.firstArgIndex,
+  apply_ite Obj.lastArgIndex, apply_ite Obj.opcode, apply_ite Obj.index, apply_ite Obj.name, ite_self]))
+
+section keep
+variable (t : ObjectTree) (i : Nat) (f : Obj → Obj) (x : Nat)
+theorem P_keep (hf : ∀ o, (f o).parentIndex = o.parentIndex) : P (setAt t i f) x = P t x := by
+  rw [P_setAt']; split <;> simp [hf, P]
+theorem Pv_keep (hf : ∀ o, (f o).prevSiblingIndex = o.prevSiblingIndex) : Pv (setAt t i f) x = Pv t x := by
+  rw [Pv_setAt']; split <;> simp [hf, Pv]
+theorem Nx_keep (hf : ∀ o, (f o).nextSiblingIndex = o.nextSiblingIndex) : Nx (setAt t i f) x = Nx t x := by
+  rw [Nx_setAt']; split <;> simp [hf, Nx]
+theorem Fi_keep (hf : ∀ o, (f o).firstArgIndex = o.firstArgIndex) : Fi (setAt t i f) x = Fi t x := by
+  rw [Fi_setAt']; split <;> simp [hf, Fi]
+theorem La_keep (hf : ∀ o, (f o).lastArgIndex = o.lastArgIndex) : La (setAt t i f) x = La t x := by
+  rw [La_setAt']; split <;> simp [hf, La]
+theorem live_keep (hf : ∀ o, (f o).opcode = o.opcode) : live (setAt t i f) x = live t x := by
+  simp only [live, size_setAt, opcode_setAt']
+  split <;> simp [hf]
+end keep
+
+/-! ### detach -/
+
+/-- the state `detach(obj, arg)` produces when every dereference succeeds -/
+def detachPure (t : ObjectTree) (obj arg : Nat) : ObjectTree :=
+  let t1 := setAt t obj fun o => if Fi t obj = (slot t arg).index then { o with firstArgIndex := Nx t arg } else o
+  let t2 := setAt t1 obj fun o => if La t1 obj = (slot t1 arg).index then { o with lastArgIndex := Pv t1 arg } else o
+  let t3 := setAt t2 (Nx t2 arg) fun x => { x with prevSiblingIndex := Pv t2 arg }
+  let t4 := setAt t3 (Pv t3 arg) fun x => { x with nextSiblingIndex := Nx t3 arg }
+  let t5 := setAt t4 arg fun a => { a with prevSiblingIndex := InvalidIndex }
+  let t6 := setAt t5 arg fun a => { a with nextSiblingIndex := InvalidIndex }
+  setAt t6 arg fun a => { a with parentIndex := InvalidIndex }
+
+theorem detachFirst_eq {t : ObjectTree} {obj arg : Nat} (ho : obj < t.pool.size) (ha : arg < t.pool.size) :
+    t.detachFirst obj arg = .ok (setAt t obj fun o =>
+      if Fi t obj = (slot t arg).index then { o with firstArgIndex := Nx t arg } else o) := by
+  simp only [detachFirst, obj_eq ho, obj_eq ha, bind, Except.bind]
+  by_cases c : (slot t obj).firstArgIndex = (slot t arg).index
+  · simp only [c, if_true, upd_eq _ ho, Fi]; rfl
+  · simp only [c, if_false, pure, Except.pure, Fi]
+    congr 1
+    exact (setAt_id' t obj).symm
+
+theorem detachLast_eq {t : ObjectTree} {obj arg : Nat} (ho : obj < t.pool.size) (ha : arg < t.pool.size) :
+    t.detachLast obj arg = .ok (setAt t obj fun o =>
+      if La t obj = (slot t arg).index then { o with lastArgIndex := Pv t arg } else o) := by
+  simp only [detachLast, obj_eq ho, obj_eq ha, bind, Except.bind]
+  by_cases c : (slot t obj).lastArgIndex = (slot t arg).index
+  · simp only [c, if_true, upd_eq _ ho, La]; rfl
+  · simp only [c, if_false, pure, Except.pure, La]
+    congr 1
+    exact (setAt_id' t obj).symm
+
+theorem detachNext_eq {t : ObjectTree} {arg : Nat} (hs : t.pool.size ≤ INV) (ha : arg < t.pool.size)
+    (hnx : Nx t arg = INV ∨ live t (Nx t arg) = true) :
+    t.detachNext arg = .ok (setAt t (Nx t arg) fun x => { x with prevSiblingIndex := Pv t arg }) := by
+  simp only [detachNext, obj_eq ha, bind, Except.bind]
+  by_cases c : (slot t arg).nextSiblingIndex = InvalidIndex
+  · simp only [c, ne_eq, not_true_eq_false, if_false, pure, Except.pure]
+    congr 1
+    have : Nx t arg = InvalidIndex := c
+    rw [this, setAt_oob]
+    show ¬ INV < t.pool.size
+    omega
+  · have hl : live t (Nx t arg) = true := hnx.resolve_left c
+    have hl' : live t (slot t arg).nextSiblingIndex = true := hl
+    simp only [ne_eq, c, not_false_eq_true, if_true, objectAt_live hl', deref_some]
+    rw [upd_eq _ (live_lt hl')]
+    rfl
+
+theorem detachPrev_eq {t : ObjectTree} {arg : Nat} (hs : t.pool.size ≤ INV) (ha : arg < t.pool.size)
+    (hpv : Pv t arg = INV ∨ live t (Pv t arg) = true) :
+    t.detachPrev arg = .ok (setAt t (Pv t arg) fun x => { x with nextSiblingIndex := Nx t arg }) := by
+  simp only [detachPrev, obj_eq ha, bind, Except.bind]
+  by_cases c : (slot t arg).prevSiblingIndex = InvalidIndex
+  · simp only [c, ne_eq, not_true_eq_false, if_false, pure, Except.pure]
+    congr 1
+    have : Pv t arg = InvalidIndex := c
+    rw [this, setAt_oob]
+    show ¬ INV < t.pool.size
+    omega
+  · have hl : live t (Pv t arg) = true := hpv.resolve_left c
+    have hl' : live t (slot t arg).prevSiblingIndex = true := hl
+    simp only [ne_eq, c, not_false_eq_true, if_true, objectAt_live hl', deref_some]
+    rw [upd_eq _ (live_lt hl')]
+    rfl
+
+theorem detachClear_eq {t : ObjectTree} {arg : Nat} (ha : arg < t.pool.size) :
+    t.detachClear arg = .ok (setAt (setAt (setAt t arg fun a => { a with prevSiblingIndex := InvalidIndex })
+      arg fun a => { a with nextSiblingIndex := InvalidIndex }) arg fun a => { a with parentIndex := InvalidIndex }) := by
+  simp only [detachClear, bind, Except.bind]
+  rw [upd_eq _ ha]
+  simp only []
+  rw [upd_eq _ (by simpa using ha)]
+  simp only []
+  rw [upd_eq _ (by simpa using ha)]
+
+theorem detach_eq {t : ObjectTree} {obj arg : Nat} (hs : t.pool.size ≤ INV)
+    (ho : obj < t.pool.size) (ha : arg < t.pool.size)
+    (hnx : Nx t arg = INV ∨ live t (Nx t arg) = true) (hpv : Pv t arg = INV ∨ live t (Pv t arg) = true)
+    (hne : Nx t arg ≠ arg) :
+    t.detach obj arg = .ok (detachPure t obj arg) := by
+  unfold ObjectTree.detach detachPure
+  simp only [bind, Except.bind]
+  rw [detachFirst_eq ho ha]
+  simp only []
+  rw [detachLast_eq (by simpa using ho) (by simpa using ha)]
+  simp only []
+  rw [detachNext_eq (by simpa using hs) (by simpa using ha) ?h3]
+  simp only []
+  rw [detachPrev_eq (by simpa using hs) (by simpa using ha) ?h4]
+  simp only []
+  rw [detachClear_eq (by simpa using ha)]
+  case h3 =>
+    rw [Nx_keep _ _ _ _ (by keep_tac), Nx_keep _ _ _ _ (by keep_tac),
+      live_keep _ _ _ _ (by keep_tac), live_keep _ _ _ _ (by keep_tac)]
+    exact hnx
+  case h4 =>
+    rw [Pv_setAt', Nx_keep _ _ _ _ (by keep_tac), Nx_keep _ _ _ _ (by keep_tac), if_neg (fun c => hne c.1),
+      Pv_keep _ _ _ _ (by keep_tac), Pv_keep _ _ _ _ (by keep_tac),
+      live_keep _ _ _ _ (by keep_tac), live_keep _ _ _ _ (by keep_tac), live_keep _ _ _ _ (by keep_tac)]
+    exact hpv
+
+/-- the links of `detachPure`, field by field -/
+theorem detachPure_spec {t : ObjectTree} {obj arg : Nat} (hs : t.pool.size ≤ INV)
+    (ho : obj < t.pool.size) (ha : arg < t.pool.size) (hidx : (slot t arg).index = arg)
+    (hoa : obj ≠ arg) (hna : Nx t arg ≠ arg) (hpa : Pv t arg ≠ arg)
+    (hnx : Nx t arg = INV ∨ Nx t arg < t.pool.size) (hpv : Pv t arg = INV ∨ Pv t arg < t.pool.size) :
+    (∀ x, P (detachPure t obj arg) x = if x = arg then INV else P t x) ∧
+    (∀ x, Pv (detachPure t obj arg) x =
+      if x = arg then INV else if x = Nx t arg ∧ Nx t arg ≠ INV then Pv t arg else Pv t x) ∧
+    (∀ x, Nx (detachPure t obj arg) x =
+      if x = arg then INV else if x = Pv t arg ∧ Pv t arg ≠ INV then Nx t arg else Nx t x) ∧
+    (∀ x, Fi (detachPure t obj arg) x = if x = obj ∧ Fi t obj = arg then Nx t arg else Fi t x) ∧
+    (∀ x, La (detachPure t obj arg) x = if x = obj ∧ La t obj = arg then Pv t arg else La t x) := by
+  have hI : INV = InvalidIndex := rfl
+  refine ⟨?_, ?_, ?_, ?_, ?_⟩ <;> intro x <;>
+    simp only [detachPure, P, Pv, Nx, Fi, La, slot_setAt', size_setAt,
+      apply_ite Obj.nextSiblingIndex, apply_ite Obj.prevSiblingIndex, apply_ite Obj.parentIndex,
+      apply_ite Obj.firstArgIndex, apply_ite Obj.lastArgIndex, apply_ite Obj.index, hidx, ite_self] at * <;> grind
+
 end Firefly.C13
